@@ -218,7 +218,7 @@ def norm_cmp(op, a, b):
 
 
 class Engine:
-    def __init__(self, prog, fn, inline=None, max_paths=MAX_PATHS, max_visits=MAX_VISITS, max_depth=MAX_DEPTH, models=True, params=None, follow=None):
+    def __init__(self, prog, fn, inline=None, max_paths=MAX_PATHS, max_visits=MAX_VISITS, max_depth=MAX_DEPTH, models=True, params=None, follow=None, inline_eq=False, consts=None):
         """inline(callee Fn) -> bool decides which crate-local callees are walked inline in addition to
         closures (always) and the functions the rule set has never seen (vlib/baseline_fns.json)."""
         self.prog = prog
@@ -235,6 +235,9 @@ class Engine:
         self.by_dp = prog.fns
         self.split_bool_ret = True
         self.discr_n = {}
+        self._promoted = {}
+        self.consts = consts or {}
+        self.inline_eq = inline_eq
 
     # ------------------------------------------------------------------------------------------
     def run(self):
@@ -374,6 +377,15 @@ class Engine:
                 return ('fn', f['path'], (f.get('res') or f).get('dp', f['dp']), tuple(ty_key(strip_regions(a)) for a in f['args'] if a.get('k') != 'region'), f.get('name'))
             if 'val' in c:
                 return ('c', c['val'])
+            if 'uneval' in c and 'promoted' not in c:
+                if c.get('uneval_name') in self.consts:
+                    return ('c', self.consts[c['uneval_name']])
+                if c['uneval'] in KNOWN_CONSTS:
+                    return ('c', KNOWN_CONSTS[c['uneval']])
+            if 'promoted' in c and fn.d.get('promoted') and c['promoted'] < len(fn.d['promoted']):
+                v = self.eval_promoted(st, fn, c['promoted'])
+                if v is not None:
+                    return v
             if 'uneval' in c:
                 return ('k', c['uneval'] + '<' + ','.join(ty_str(a) for a in c.get('uneval_args', []) if a.get('k') != 'region') + '>' + ('#p%d' % c['promoted'] if 'promoted' in c else ''))
             return ('k', c.get('s', '?'))
@@ -382,16 +394,52 @@ class Engine:
             return ('unk', 'op')
         return self.eval_place(st, fn, frame, p)
 
-    def binop(self, op, a, b):
+    def negate(self, r):
+        if r[0] == 'c':
+            return ('c', int(not r[1]))
+        if r[0] == 'un' and r[1] == 'Not':
+            return r[2]
+        if r[0] == 'bin' and r[1] in NEG:
+            return ('bin', NEG[r[1]], r[2], r[3])
+        return ('un', 'Not', r)
+
+    def eval_promoted(self, st, fn, idx):
+        """Value of a promoted constant of fn (straight-line bodies only)."""
+        key = (fn.dp, idx)
+        if key not in self._promoted:
+            self._promoted[key] = Fn(dict(fn.d, mir=fn.d['promoted'][idx], dp=fn.dp + '::{promoted#%d}' % idx), self.prog)
+        pf = self._promoted[key]
+        if pf.body.n != 1 or pf.body.blocks[0]['term']['k'] != 'return':
+            return None
+        self.frames += 1
+        frame = self.frames
+        for s_ in pf.body.blocks[0]['stmts']:
+            if s_['k'] == 'assign':
+                self.write(st, pf, frame, s_['place'], self.rvalue(st, pf, frame, s_['rv']))
+        return st.env.get((frame, 0))
+
+    def operand_ty(self, fn, op):
+        p = op_place(op)
+        t = fn.body.place_ty(p) if p is not None else op.get('const', {}).get('ty')
+        return t.get('name') if isinstance(t, dict) and t.get('k') == 'prim' else None
+
+    def binop(self, op, a, b, ty=None):
+        narrow = ty if ty in ('u8', 'u16', 'u32') else None
         if a[0] == 'c' and b[0] == 'c' and isinstance(a[1], int) and isinstance(b[1], int):
             x, y = a[1], b[1]
+            m = MASK.get(ty, (1 << 64) - 1) if ty is None or not ty.startswith('i') else None
+            wrap = (lambda v: v & m) if m is not None else (lambda v: v)
             try:
                 if op in ('Add', 'AddUnchecked', 'AddWithOverflow'):
-                    return ('c', x + y)
+                    return ('c', wrap(x + y))
                 if op in ('Sub', 'SubUnchecked', 'SubWithOverflow'):
-                    return ('c', x - y)
+                    return ('c', wrap(x - y)) if ty is not None else ('c', x - y)
                 if op in ('Mul', 'MulUnchecked'):
-                    return ('c', x * y)
+                    return ('c', wrap(x * y))
+                if op in ('Shl', 'ShlUnchecked'):
+                    return ('c', wrap(x << (y % BITS.get(ty, 64))))
+                if op in ('Shr', 'ShrUnchecked'):
+                    return ('c', x >> (y % BITS.get(ty, 64)))
                 if op == 'Div' and y:
                     return ('c', x // y)
                 if op == 'Rem' and y:
@@ -414,8 +462,14 @@ class Engine:
             op = 'Add'
         if op in ('SubUnchecked',):
             op = 'Sub'
+        if op in ('ShlUnchecked',):
+            op = 'Shl'
+        if op in ('ShrUnchecked',):
+            op = 'Shr'
         if op in ('Add', 'Mul', 'BitAnd', 'BitOr', 'BitXor'):
             a, b = sorted([a, b], key=repr)
+        if narrow and op not in NEG:
+            return ('bin', op, a, b, narrow)
         return ('bin', op, a, b)
 
     def rvalue(self, st, fn, frame, rv):
@@ -432,9 +486,14 @@ class Engine:
                     return inner
             return ('r', loc)
         if k == 'binop':
-            return self.binop(rv['op'], self.operand(st, fn, frame, rv['a']), self.operand(st, fn, frame, rv['b']))
+            return self.binop(rv['op'], self.operand(st, fn, frame, rv['a']), self.operand(st, fn, frame, rv['b']), self.operand_ty(fn, rv['a']))
         if k == 'unop':
             a = self.operand(st, fn, frame, rv['a'])
+            ty = self.operand_ty(fn, rv['a'])
+            if rv['op'] == 'Not' and ty not in (None, 'bool'):
+                if a[0] == 'c' and ty in MASK:
+                    return ('c', (~a[1]) & MASK[ty])
+                return ('un', 'BitNot', a, ty)
             if rv['op'] == 'Not':
                 if a[0] == 'c':
                     return ('c', int(not a[1])) if a[1] in (0, 1) else ('un', 'Not', a)
@@ -857,6 +916,13 @@ def model_key(f):
 
 
 MODELS = {}
+MASK = {'u8': 0xFF, 'u16': 0xFFFF, 'u32': 0xFFFFFFFF, 'u64': (1 << 64) - 1, 'usize': (1 << 64) - 1, 'u128': (1 << 128) - 1, 'bool': 1}
+BITS = {'u8': 8, 'u16': 16, 'u32': 32, 'u64': 64, 'usize': 64, 'u128': 128, 'i8': 8, 'i16': 16, 'i32': 32, 'i64': 64, 'isize': 64, 'i128': 128}
+KNOWN_CONSTS = {}
+for _t, _b in (('u8', 8), ('u16', 16), ('u32', 32), ('u64', 64), ('usize', 64)):
+    KNOWN_CONSTS['core::num::<impl %s>::MAX' % _t] = (1 << _b) - 1
+    KNOWN_CONSTS['core::num::<impl %s>::MIN' % _t] = 0
+    KNOWN_CONSTS['core::num::<impl %s>::BITS' % _t] = _b
 STD_VARIANTS = {'core::option::Option': 2, 'core::result::Result': 2, 'core::ops::ControlFlow': 2, 'hashbrown::hash_map::Entry': 2, 'hashbrown::hash_map::RawEntryMut': 2,
                 'alloc::borrow::Cow': 2, 'core::ops::Bound': 3}
 
@@ -1129,10 +1195,22 @@ def _cmp_model(op):
         ret = ('call', f['path'], tuple(a), None, st.epoch)
         e['ret'] = ret
         e['modelled'] = False
-        # resolved impl may be crate-local (derive or hand written): walk it when allowed
-        callee = E.callee_fn(f)
-        if callee is not None and st.depth < E.max_depth and E.inline(callee):
-            return E.call_fn(st, callee, a, k)
+        # a crate-local PartialEq::eq (derived or hand written) is walked inline when asked for;
+        # `ne` is the trait's default method: !eq
+        if op in ('Eq', 'Ne') and t.get('k') == 'adt' and st.depth < E.max_depth:
+            callee = None
+            for imp in E.prog.facts['impls']:
+                if imp['trait'] and imp['trait']['path'] == 'core::cmp::PartialEq' and imp['self'].get('k') == 'adt' and imp['self']['path'] == t['path']:
+                    for it in imp['items']:
+                        if it['dp'].endswith('::eq') and it['dp'] in E.by_dp:
+                            callee = E.by_dp[it['dp']]
+            if callee is not None and (E.inline_eq or E.inline(callee)):
+                xa, ya = a[0], a[1]
+                tt = self_ty
+                while tt.get('k') == 'ref':
+                    xa, ya = E.deref_arg(st, xa), E.deref_arg(st, ya)
+                    tt = tt['t']
+                return E.call_fn(st, callee, [xa, ya], (lambda s, r: k(s, r if op == 'Eq' else E.negate(r))))
         k(st, ret)
     return m
 
@@ -1153,6 +1231,39 @@ def m_join(E, st, f, a, k, e):
         s.ev('join_mid', call=e['i'])
         E.call_closure(s, a[1], [], lambda s2, rb: (s2.ev('join_end', call=e['i']), k(s2, ('agg', 'tuple', None, 0, (ra, rb))))[1])
     E.call_closure(st, a[0], [], after_a)
+
+
+# arithmetic / bit operators written through the operator traits (e.g. `&u8 & u8`)
+def _arith_model(op):
+    def m(E, st, f, a, k, e):
+        tys = [x for x in f.get('args', []) if x.get('k') != 'region']
+        vals = []
+        prim = None
+        for i, x in enumerate(a[:2]):
+            t = tys[i] if i < len(tys) else {}
+            while t.get('k') == 'ref':
+                x = E.deref_arg(st, x)
+                t = t['t']
+            if t.get('k') == 'prim':
+                prim = prim or t['name']
+            else:
+                prim = False
+            vals.append(x)
+        if prim:
+            if op == 'Not':
+                return k(st, ('c', (~vals[0][1]) & MASK.get(prim, (1 << 64) - 1)) if vals[0][0] == 'c' and prim != 'bool' else (E.negate(vals[0]) if prim == 'bool' else ('un', 'BitNot', vals[0], prim)))
+            if len(vals) == 2:
+                return k(st, E.binop(op, vals[0], vals[1], prim))
+        ret = ('call', f['path'], tuple(a), None, st.epoch)
+        e['ret'] = ret
+        e['modelled'] = False
+        k(st, ret)
+    return m
+
+
+for _tr, _me, _op in (('BitAnd', 'bitand', 'BitAnd'), ('BitOr', 'bitor', 'BitOr'), ('BitXor', 'bitxor', 'BitXor'), ('Shl', 'shl', 'Shl'), ('Shr', 'shr', 'Shr'),
+                      ('Add', 'add', 'Add'), ('Sub', 'sub', 'Sub'), ('Mul', 'mul', 'Mul'), ('Div', 'div', 'Div'), ('Rem', 'rem', 'Rem'), ('Not', 'not', 'Not')):
+    MODELS['core::ops::%s::%s' % (_tr, _me)] = _arith_model(_op)
 
 
 # ---- iterators ---------------------------------------------------------------------------------
@@ -1304,6 +1415,46 @@ def _consumer(E, st, f, a, k, e):
 for _p in ('core::iter::Extend::extend', ITER + 'collect', 'core::iter::FromIterator::from_iter', ITER + 'count', ITER + 'sum', ITER + 'last', ITER + 'max', ITER + 'min',
            ITER + 'fold', ITER + 'unzip', ITER + 'for_each_unused'):
     MODELS[_p] = _consumer
+
+
+def evaluate(t, leaf, depth=0):
+    """Concrete value (int) of a term given leaf(t) -> int|None for opaque subterms; None if unknown."""
+    if depth > 60 or not isinstance(t, tuple):
+        return None
+    v = leaf(t)
+    if v is not None:
+        return v
+    if t[0] == 'c' and isinstance(t[1], int):
+        return t[1]
+    if t[0] == 'bin':
+        a, b = evaluate(t[2], leaf, depth + 1), evaluate(t[3], leaf, depth + 1)
+        if a is None or b is None:
+            return None
+        ty = t[4] if len(t) > 4 else 'usize'
+        m = MASK.get(ty, (1 << 64) - 1)
+        op = t[1].replace('WithOverflow', '').replace('Unchecked', '')
+        try:
+            return {'Add': lambda: (a + b) & m, 'Sub': lambda: (a - b) & m, 'Mul': lambda: (a * b) & m, 'Div': lambda: a // b, 'Rem': lambda: a % b,
+                    'BitAnd': lambda: a & b, 'BitOr': lambda: a | b, 'BitXor': lambda: a ^ b, 'Shl': lambda: (a << (b % BITS.get(ty, 64))) & m, 'Shr': lambda: a >> (b % BITS.get(ty, 64)),
+                    'Eq': lambda: int(a == b), 'Ne': lambda: int(a != b), 'Lt': lambda: int(a < b), 'Le': lambda: int(a <= b), 'Gt': lambda: int(a > b), 'Ge': lambda: int(a >= b)}[op]()
+        except (KeyError, ZeroDivisionError):
+            return None
+    if t[0] == 'un':
+        a = evaluate(t[2], leaf, depth + 1)
+        if a is None:
+            return None
+        if t[1] == 'Not':
+            return int(not a)
+        if t[1] == 'BitNot':
+            return (~a) & MASK.get(t[3] if len(t) > 3 else 'usize', (1 << 64) - 1)
+        if t[1] == 'Neg':
+            return -a
+        return None
+    if t[0] == 'cast':
+        return evaluate(t[2], leaf, depth + 1)
+    if t[0] in ('d', 'r'):
+        return evaluate(t[1], leaf, depth + 1)
+    return None
 
 
 def iter_chain(it, depth=0):
